@@ -78,7 +78,7 @@ CSVROWS = [
     {"pattern": "COSTCO|AMAZON", "merchant": "NoSub", "category": "Shopping", "subcategory": ""},
 ]
 
-TXNS = R.all_txns()
+TXNS = R.all_txns(ctxs=R.CTX + [R.CTX_TWIN])
 
 
 def bounds(tier):
@@ -92,7 +92,8 @@ def gen_cases(tier):
     for n in range(1, k + 1):
         for seq in itertools.permutations(range(len(RULES)), n):
             for p in range(len(PREAMBLES)):
-                yield {"fmt": "rules", "preamble": p, "rules": list(seq)}
+                # the statement-file entry point is run for files of <= 2 rules in the quick tier, for all files in the thorough tier
+                yield {"fmt": "rules", "preamble": p, "rules": list(seq), "stmt": bool(n <= 2 or tier == "thorough")}
     for n in range(1, k + 1):
         for seq in itertools.permutations(range(len(CSVROWS)), n):
             yield {"fmt": "csv", "rows": list(seq)}
@@ -122,6 +123,32 @@ def rules_results(p, seq, force_cat=None):
     b = [R.normalize_result(rules, transforms, t) for t in TXNS]
     H.reset_state()
     return a, b
+
+
+def statement_results(p, seq):
+    """The Amex rows of TXNS written as one statement file and read by parse_generic_csv with the file's rules (the `tally up` path).
+    Returns {index into TXNS: result}."""
+    import datetime as _dt
+    from tally.parsers import parse_generic_csv
+    from tally.format_parser import parse_format_string
+    text = _file_text(p, seq)
+    H.reset_state()
+    path = R.write_scratch("m.rules", text)
+    rules, transforms = R.load_path(path)
+    idx = [i for i, t in enumerate(TXNS) if t["date"] and t["source"] == "Amex" and t["field"]]
+    lines = ["Date,Description,Amount,Memo,Type"]
+    for i in idx:
+        t = TXNS[i]
+        lines.append(",".join([_dt.date.fromisoformat(t["date"]).strftime("%m/%d/%Y"), R.csv_quote(t["description"]), repr(t["amount"]),
+                               R.csv_quote(t["field"].get("memo", "")), R.csv_quote(t["field"].get("type", ""))]))
+    sp = R.write_scratch("stmt.csv", "\n".join(lines) + "\n")
+    spec = parse_format_string("{date:%m/%d/%Y},{description},{amount},{memo},{type}")
+    txns = parse_generic_csv(sp, spec, rules, source_name="Amex", transforms=transforms)
+    H.reset_state()
+    if len(txns) != len(idx):
+        return None
+    return {i: {"merchant": x["merchant"], "category": x["category"], "subcategory": x["subcategory"], "tags": sorted(x.get("tags") or [])}
+            for i, x in zip(idx, txns)}
 
 
 @functools.lru_cache(maxsize=None)
@@ -245,6 +272,20 @@ def check_rules_case(case):
                 viol.append({"kind": "false-rule-influences-result", "detail": {"entry": ("engine", "normalize")[ep_i], "txn": TXNS[ti],
                                                                                  "with_false_rules": full[ti], "without": red[ti],
                                                                                  "false_rules": [RULES[i]["name"] for i, keep in zip(seq, tv) if not keep]}})
+    # third entry point: the same transactions as rows of one statement file (what `tally up` does) - every row must get what
+    # normalize_merchant gives that transaction on its own
+    try:
+        st = statement_results(p, seq) if case.get("stmt", True) else None
+    except Exception as e:  # noqa
+        st = None
+        viol.append({"kind": "statement-parse-raises", "detail": {"exc": f"{type(e).__name__}: {e}"}})
+    if st is not None:
+        for ti, got in st.items():
+            evals += 1
+            want = {k: b[ti][k] for k in ("merchant", "category", "subcategory")}
+            want["tags"] = sorted(b[ti]["tags"])
+            if got != want:
+                viol.append({"kind": "statement-row-classified-differently", "detail": {"txn": TXNS[ti], "as_row_of_a_statement": got, "on_its_own": want}})
     for d, names in by_desc.items():
         if len(names) > 1:
             viol.append({"kind": "unknown-merchant-not-function-of-description", "detail": {"description": d, "names": sorted(names)}})
